@@ -437,8 +437,12 @@ def run_scenario(scn, *, bus="sync", chooser=None, seed=0, max_steps=None, use_s
             path = os.path.join(d, "cfg.yaml")
             with open(path, "w") as f:
                 yaml.safe_dump(vt_config.entries(scn["components"]), f)
-            SI.add("vtbus", False)(Consumer)
-            SI.add("vtbus", False)(Producer)
+            # the run's bus classes are registered as a state interface: under a name of their own, or - when they ARE
+            # tickit's in-memory interface (observed) - under its own name "internal", as `tickit all` would select it
+            backend = "internal" if bus == "internal" else "vtbus"
+            info["registry_saved"] = (backend, SI.consumers.get(backend), SI.producers.get(backend))
+            SI.add(backend, False)(Consumer)
+            SI.add(backend, False)(Producer)
             sims = []
             try:
                 for p_ in file_parts:
@@ -447,10 +451,8 @@ def run_scenario(scn, *, bus="sync", chooser=None, seed=0, max_steps=None, use_s
                         kw["include_components"] = False
                     else:
                         kw["components_to_run"] = None if p_.get("components") is None else set(p_["components"])
-                    sims.append(build_simulation(path, "vtbus", **kw))
+                    sims.append(build_simulation(path, backend, **kw))
             finally:
-                SI.consumers.pop("vtbus", None)
-                SI.producers.pop("vtbus", None)
                 try:
                     os.remove(path)
                     os.rmdir(d)
@@ -459,9 +461,7 @@ def run_scenario(scn, *, bus="sync", chooser=None, seed=0, max_steps=None, use_s
             sched = next(s_._scheduler for s_ in sims if s_._scheduler is not None)
             info["scheduler"] = sched
             info["built"] = [{"scheduler": s_._scheduler is not None, "components": sorted((s_._components or {}).keys())} for s_ in sims]
-            # get_interface is consulted again when the components are started
-            SI.add("vtbus", False)(Consumer)
-            SI.add("vtbus", False)(Producer)
+            # (get_interface is consulted again when the components are started: the registration stays until the run is over)
             tasks = []
             for k, s_ in enumerate(sims):
                 async def start(s_=s_, k=k):
@@ -570,8 +570,18 @@ def run_scenario(scn, *, bus="sync", chooser=None, seed=0, max_steps=None, use_s
         info["sched_error"] = sched.error.is_set()
         return True
 
-    with instrument_tickers(ctx):
-        res, loop = run_virtual(main, max_steps=max_steps or scn.get("max_steps", 20000), step_cost_ns=scn.get("step_cost_ns", 0))
+    try:
+        with instrument_tickers(ctx):
+            res, loop = run_virtual(main, max_steps=max_steps or scn.get("max_steps", 20000), step_cost_ns=scn.get("step_cost_ns", 0))
+    finally:
+        if info.get("registry_saved"):
+            from tickit.core.state_interfaces import state_interface as SI
+            name, c0, p0 = info["registry_saved"]
+            for table, old in ((SI.consumers, c0), (SI.producers, p0)):
+                if old is None:
+                    table.pop(name, None)
+                else:
+                    table[name] = old
     if info.get("stop") == "ticks":
         # the run is DEFINED as the history up to the end of the n_ticks-th master tick: under a delaying bus (and with
         # callbacks for the current instant) a further tick may already have begun before the stop condition was seen
